@@ -355,7 +355,10 @@ func (o *oracleC10) before(c *stepCtx) {
 		for _, a := range op.A {
 			if sw.V[a] == nil {
 				var y *decimal.Decimal
-				verifrt.Shadow(func() { y = rebuild(c.w.V[a]) })
+				// (the bytes of an encoding are not canonical: a mantissa may be sent
+				// with or without its low zero words)
+				minimal := c.idx%2 == 1 && op.Name != "GobEncode"
+				verifrt.Shadow(func() { y = rebuild(c.w.V[a], minimal) })
 				if y == nil {
 					return
 				}
@@ -456,8 +459,10 @@ func (o *oracleC10) shadow(c *stepCtx, f func()) {
 
 // rebuild returns a Decimal that has everything observable in common with x
 // (value, sign, precision, mode, accuracy) and nothing else: it is decoded from
-// x's encoding into a zero Decimal.
-func rebuild(x *decimal.Decimal) *decimal.Decimal {
+// x's encoding into a zero Decimal. minimal: without the low-order zero words
+// x's mantissa may carry (two Decimals with the same value, one computed, one
+// parsed, differ in that).
+func rebuild(x *decimal.Decimal, minimal bool) *decimal.Decimal {
 	defer func() { _ = recover() }()
 	if x.Prec() > maxWorkPrec {
 		return nil
@@ -466,8 +471,24 @@ func rebuild(x *decimal.Decimal) *decimal.Decimal {
 	if err != nil {
 		return nil
 	}
+	enc = ownBytes(enc)
+	if minimal && len(enc) > 18 {
+		// same value and attributes with the shortest mantissa that holds it: the
+		// encoding lists the words most significant first and a missing low word
+		// is a zero word
+		for len(enc) > 18 {
+			zero := true
+			for _, b := range enc[len(enc)-8:] {
+				zero = zero && b == 0
+			}
+			if !zero {
+				break
+			}
+			enc = enc[:len(enc)-8]
+		}
+	}
 	y := new(decimal.Decimal)
-	if y.GobDecode(ownBytes(enc)) != nil {
+	if y.GobDecode(enc) != nil {
 		return nil
 	}
 	return y
